@@ -53,6 +53,10 @@ func (fx *Fx) callClosure(st *State, fnv Val, args []Val, resT types.Type, ins s
 	o := fnv.L[0]
 	if o.Local > 0 {
 		if fn := fx.P.closureFn[o.Local]; fn != nil {
+			if ct := fx.P.Contracts[fnName(fn)]; ct != nil && !ct.Inline && !ct.Sweep && len(ct.Ensures) > 0 {
+				// a closure with its own contract is called modularly
+				return fx.applyContract(st, ct, fn, args, resT, pos, fnName(fn), o)
+			}
 			// bindings become free variables
 			return fx.inline(st, fn, args, resT, o, pos)
 		}
@@ -403,7 +407,7 @@ func (fx *Fx) paramNames(ct *Contract, fn *ssa.Function, n int) []string {
 	return out
 }
 
-func (fx *Fx) applyContract(st *State, ct *Contract, fn *ssa.Function, args []Val, resT types.Type, pos token.Pos, name string) Val {
+func (fx *Fx) applyContract(st *State, ct *Contract, fn *ssa.Function, args []Val, resT types.Type, pos token.Pos, name string, closure ...*Term) Val {
 	if ct.Trusted {
 		fx.Trusted[name] = true
 	}
@@ -415,6 +419,30 @@ func (fx *Fx) applyContract(st *State, ct *Contract, fn *ssa.Function, args []Va
 	for i, n := range names {
 		vars[n] = args[i]
 	}
+	// a closure called under its own contract: captured variables are named as in the closure body
+	// (&x the cell, x its current value, x0 its value before the call)
+	bindFree := func(pre bool) {
+		if len(closure) == 0 || closure[0] == nil || fn == nil {
+			return
+		}
+		var off int64
+		for _, fv := range fn.FreeVars {
+			pv := st.Load(fv.Type(), closure[0], BVConstI(off, 64))
+			pv.T = fv.Type()
+			off += slots(fv.Type())
+			vars["&"+fv.Name()] = pv
+			if pt, ok := fv.Type().Underlying().(*types.Pointer); ok && slots(pt.Elem()) <= 64 {
+				cur := st.Load(pt.Elem(), pv.L[0], pv.L[1])
+				vars[fv.Name()] = cur
+				if pre {
+					vars[fv.Name()+"0"] = cur
+				}
+			} else {
+				vars[fv.Name()] = pv
+			}
+		}
+	}
+	bindFree(true)
 	old := st.Clone()
 	env := &Env{fx: fx, st: st, old: old, vars: vars}
 	for _, r := range ct.Requires {
@@ -426,6 +454,7 @@ func (fx *Fx) applyContract(st *State, ct *Contract, fn *ssa.Function, args []Va
 	for _, m := range ct.Modifies {
 		fx.havocLoc(st, m, env)
 	}
+	bindFree(false)
 	for _, e := range ct.Escapes {
 		st.markEscapes(fx.P.elab(fx, e, env))
 	}
